@@ -4,13 +4,13 @@
 From Coq Require Import ZArith List Bool Ascii String Lia ZifyBool.
 From Cnfgen Require Import Sem Comb Linear IR Text Dimacs Cli GraphSpec Subst FamTab FamFast
      Fam_php Fam_count Fam_cliquecol C03_Util Fam_ordering Fam_ramsey Fam_cpls.
-From Cnfgen Require Import SemFacts CliFacts Pipeline PipelineFacts.
+From Cnfgen Require Import SemFacts CliFacts PipelineGraph Pipeline PipelineFacts.
 Import ListNotations.
 Open Scope Z_scope.
 
 (* a token that does not start with "-" is an argument *)
 Lemma pl_classify_pos flags t : pl_starts_dash t = false -> pl_classify flags t = PlPos t.
-Proof. destruct t as [|c r]; [reflexivity|]. cbn [pl_starts_dash pl_classify]. intros ->. reflexivity. Qed.
+Proof. destruct t as [|c r]; [reflexivity|]. unfold pl_classify. cbn [pl_starts_dash pl_classify_gen]. intros ->. reflexivity. Qed.
 
 (* a token that int() and float() read as the non-negative integer z:  "3", "+3", " 3", "03", "3_0" ... *)
 Definition pl_nat_tok (t : text) (z : Z) : Prop :=
